@@ -281,7 +281,9 @@ Proof.
   (* keyable scalars *)
   all: try (rewrite C1 in Hc; cbn [exec_prims exec_prim key_args a_key] in Hc; unfold notify_key in Hc;
             match type of Hc with context [existsb ?f ?l] => destruct (existsb f l) eqn:Fr; [discriminate Hc|] end;
-            eapply Key; [reflexivity | reflexivity | assumption | assumption | exact Fr]).
+            eapply Key; [reflexivity
+                        | first [reflexivity | unfold key_ok; cbn [key_of]; match goal with H : negb _ = false |- _ => apply negb_false_iff in H; exact H end]
+                        | assumption | assumption | exact Fr]).
   - (* a record type where a key is expected *)
     destruct Hc as [c0 [N Hc]]. unfold notify_new_object in N. inv_some.
     match type of Hc with call_current _ _ _ ?c0 = _ => rewrite (call_current_cell cfg _ _ c0 _ eq_refl) in Hc end.
